@@ -37,6 +37,9 @@ func (v *VerifRangeIterator) P() *big.Int      { return v.it.P }
 func (v *VerifRangeIterator) G() *big.Int      { return v.it.G }
 func (v *VerifRangeIterator) StartI() *big.Int { return v.it.startI }
 
+// SetI moves the iterator to an arbitrary point of its walk (the element after which Next continues).
+func (v *VerifRangeIterator) SetI(x *big.Int) { v.it.I.Set(x) }
+
 func VerifErrRangeSize() error { return errRangeSize }
 
 func VerifMergeErrChan(ctx context.Context, channels ...<-chan error) <-chan error {
